@@ -44,7 +44,8 @@ def run(ctx):
             for q in qtags:
                 for a in atags:
                     pl.append(["beat_at_time_at", frac(b), q, a])
-        pauses = [(b, "STOP") for b, _ in td["stops"]] + [(b, "DELAY") for b, _ in td["delays"]]
+        # only pauses of positive length have times strictly inside them
+        pauses = [(b, "STOP") for b, v in td["stops"] if v > 0] + [(b, "DELAY") for b, v in td["delays"] if v > 0]
         for b, t in pauses:
             for f in ("WARP", "BPM", "STOP_END"):
                 pl.append(["beat_at_in_pause", frac(b), t, f])
